@@ -7,7 +7,7 @@
    [supra_conn ... u v] says that the connection between u and v is suprathreshold;
    [supra_adj ...] is the 0/1 matrix of those connections, [path] reachability in it (C16). *)
 From Coq Require Import QArith Qreals Reals List Arith ZArith Permutation.
-From BCT Require Import Base.Mat Base.ListX Model.Components Proofs.Components Model.Nbs Proofs.Nbs Proofs.NbsReal.
+From BCT Require Import Base.Mat Base.ListX Model.Components Proofs.Components Model.Nbs Model.NbsApi Proofs.Nbs Proofs.NbsReal Proofs.NbsFull.
 Import ListNotations.
 Local Open Scope nat_scope.
 
@@ -124,6 +124,138 @@ Theorem C19_t_gt_thresh_paired : forall tl thr x y,
               / sqrt (Q2R (paired_ss (diffs x y) / qn (length (diffs x y) - 1) / qn (length (diffs x y)))))%R).
 Proof. exact supra_p_real. Qed.
 
+(* ---------------------------------------------------------------------------------------------
+   Statements on the call as a whole (Proofs/NbsFull.v).
+   [nbs_full tc ix jx iy jy xs ys thr paired draws] (Model/NbsApi.v) puts the argument checks of
+   nbs_bct in front of [nbs]: tc = tail string (0 both, 1 left, 2 right, other = another string),
+   ix jx iy jy = x.shape[:2], y.shape[:2]; it returns inl <exception> or inr (pvals, adj, null). *)
+
+(* the p-values on the returned triple alone: pvals[l-1] is the fraction of the returned null values
+   that are >= the number of connections labelled l in the returned adj (cells u < v with adj[u,v] = l) *)
+Theorem C19_pval_is_fraction_of_null_ge_links : forall n xs ys thr tl paired draws pv adj null,
+  nbs n xs ys thr tl paired draws = Some (pv, adj, null) ->
+  length null = length draws /\ 0 < length draws /\
+  forall l, 1 <= l <= length pv ->
+    nth (l - 1) pv 0%Q
+    = (qn (length (filter (fun v => Qle_bool (qn (length (filter (fun c => (adj (fst c) (snd c) =? Z.of_nat l)%Z) (triu_cells n)))) v) null))
+       / qn (length null))%Q.
+Proof. exact pval_is_fraction. Qed.
+
+(* every null value is the NBS statistic of the subject stacks relabelled by the recorded draw:
+   [relabelled] (Model/NbsApi.v) = unpaired: the concatenated stack x|y re-indexed by the drawn
+   permutation, first nx matrices -> group 1, last ny -> group 2; paired: the members of pair j
+   exchanged where rand_j > 1/2.  The statistic: with [a] the component labelling of the
+   suprathreshold graph of the RELABELLED stacks (equal labels <-> joined by a path), v bounds the
+   number of suprathreshold connections [links_in .. a l] inside every component l and equals it
+   for one l (v = 0 when no connection is suprathreshold). *)
+Theorem C19_null_is_relabelled_max : forall n xs ys thr tl paired draws pv adj null,
+  nbs n xs ys thr tl paired draws = Some (pv, adj, null) ->
+  length null = length draws /\
+  Forall2 (fun d v =>
+     exists xs' ys', relabelled paired (length xs) (length ys) d xs ys = Some (xs', ys') /\
+       exists a sz, get_components n (supra_adj n paired tl thr xs' ys') = Some (a, sz) /\
+         length a = n /\
+         (forall u w, u < n -> w < n -> (nth u a 0 = nth w a 0 <-> path n (supra_adj n paired tl thr xs' ys') u w)) /\
+         (forall l, (qn (links_in n paired tl thr xs' ys' a l) <= v)%Q) /\
+         (exists l, (v == qn (links_in n paired tl thr xs' ys' a l))%Q))
+    draws null.
+Proof. exact null_is_relabelled_max. Qed.
+
+(* what a relabelling is. Unpaired, p a permutation of 0..nx+ny-1: the two new groups together are
+   the old subjects re-indexed by p (the same p on every connection), group sizes are kept *)
+Theorem C19_relabel_unpaired_is_permutation : forall xs ys p,
+  Permutation p (seq 0 (length xs + length ys)) ->
+  let R := relabel_unpaired (length xs) (length ys) p xs ys in
+  fst R ++ snd R = map (fun q => nth q (xs ++ ys) zmat) p /\
+  Permutation (fst R ++ snd R) (xs ++ ys) /\ length (fst R) = length xs /\ length (snd R) = length ys.
+Proof. exact relabel_unpaired_is_permutation. Qed.
+
+(* paired, one rand per pair, none exactly 1/2: every pair is kept or its two members are exchanged *)
+Theorem C19_relabel_paired_exchanges_pairs : forall xs ys r,
+  length r = length xs -> length ys = length xs -> (forall rj, In rj r -> ~ (rj == 1 # 2)%Q) ->
+  let R := relabel_paired r xs ys in
+  length (fst R) = length xs /\ length (snd R) = length xs /\
+  Forall2 (fun XY XY' : mat Q * mat Q => XY' = XY \/ XY' = (snd XY, fst XY)) (combine xs ys) (combine (fst R) (snd R)).
+Proof. exact relabel_paired_exchanges_pairs. Qed.
+
+(* exactly when the computation raises: paired with unequal groups, or no suprathreshold connection,
+   or k = 0, or (replay only) a recorded draw of the wrong kind; and exactly when it returns *)
+Theorem C19_raises_iff : forall n xs ys thr tl paired draws,
+  nbs n xs ys thr tl paired draws = None <->
+  (paired = true /\ length xs <> length ys) \/
+  (forall u v, u < n -> v < n -> ~ supra_conn n paired tl thr xs ys u v) \/
+  draws = [] \/
+  (exists d, In d draws /\ draw_ok paired d = false).
+Proof. exact nbs_none_iff. Qed.
+
+Theorem C19_returns_iff : forall n xs ys thr tl paired draws,
+  (exists r, nbs n xs ys thr tl paired draws = Some r) <->
+  (paired = false \/ length xs = length ys) /\
+  (exists u v, u < n /\ v < n /\ supra_conn n paired tl thr xs ys u v) /\
+  draws <> [] /\
+  (forall d, In d draws -> draw_ok paired d = true).
+Proof. exact nbs_returns_iff. Qed.
+
+(* the whole call returns exactly when the tail string and the shapes are accepted and [nbs] returns *)
+Theorem C19_call_returns_iff : forall tc ix jx iy jy xs ys thr paired draws r,
+  nbs_full tc ix jx iy jy xs ys thr paired draws = inr r <->
+  tc <= 2 /\ (ix = jx /\ jx = iy /\ iy = jy) /\ nbs ix xs ys thr (tail_of_nat tc) paired draws = Some r.
+Proof. exact nbs_full_returns. Qed.
+
+(* which exception is raised, exactly when ([raises], Proofs/NbsFull.v, in the order of the code:
+   ETail: tc > 2; EShape: not ix = jx = iy = jy; EPairedSize: paired and nx <> ny; EUnsuitable: no
+   suprathreshold connection; EZeroDiv: a suprathreshold connection and k = 0; EDraw: replay only;
+   EDegenerate: never) *)
+Theorem C19_exception_raised : forall tc ix jx iy jy xs ys thr paired draws e,
+  nbs_full tc ix jx iy jy xs ys thr paired draws = inl e <->
+  match e with
+  | ETail => 2 < tc
+  | EShape => tc <= 2 /\ ~ (ix = jx /\ jx = iy /\ iy = jy)
+  | EPairedSize => tc <= 2 /\ (ix = jx /\ jx = iy /\ iy = jy) /\ paired = true /\ length xs <> length ys
+  | EUnsuitable =>
+      (tc <= 2 /\ (ix = jx /\ jx = iy /\ iy = jy) /\ (paired = false \/ length xs = length ys)) /\
+      (forall u v, u < ix -> v < ix -> ~ supra_conn ix paired (tail_of_nat tc) thr xs ys u v)
+  | EDegenerate => False
+  | EDraw =>
+      (tc <= 2 /\ (ix = jx /\ jx = iy /\ iy = jy) /\ (paired = false \/ length xs = length ys)) /\
+      (exists u v, u < ix /\ v < ix /\ supra_conn ix paired (tail_of_nat tc) thr xs ys u v) /\
+      (exists d, In d draws /\ draw_ok paired d = false)
+  | EZeroDiv =>
+      (tc <= 2 /\ (ix = jx /\ jx = iy /\ iy = jy) /\ (paired = false \/ length xs = length ys)) /\
+      (exists u v, u < ix /\ v < ix /\ supra_conn ix paired (tail_of_nat tc) thr xs ys u v) /\
+      draws = []
+  end.
+Proof. exact nbs_full_raises. Qed.
+
+(* 'True matrix is degenerate' (py 197-201) is dead code: a suprathreshold connection always
+   yields a component with more than one node *)
+Theorem C19_degenerate_unreachable : forall tc ix jx iy jy xs ys thr paired draws,
+  nbs_full tc ix jx iy jy xs ys thr paired draws <> inl EDegenerate.
+Proof. exact degenerate_unreachable. Qed.
+
+(* totality of the symmetric calls: if the call returns, the call with the groups and the tail
+   swapped / the subjects reordered returns too (for any k' >= 1 draws of the right kind), with the
+   same adjacency, labels included, and the same number of p-values *)
+Theorem C19_swap_groups_tail_total : forall n thr paired xs ys tl draws pv adj null draws',
+  nbs n xs ys thr tl paired draws = Some (pv, adj, null) ->
+  draws' <> [] -> (forall d, In d draws' -> draw_ok paired d = true) ->
+  exists pv' null', nbs n ys xs thr (swap_tail tl) paired draws' = Some (pv', adj, null') /\ length pv' = length pv.
+Proof. exact swap_groups_tail_total. Qed.
+
+Theorem C19_reorder_within_group_total : forall n thr xs ys xs' ys' tl draws pv adj null draws',
+  Permutation xs xs' -> Permutation ys ys' ->
+  nbs n xs ys thr tl false draws = Some (pv, adj, null) ->
+  draws' <> [] -> (forall d, In d draws' -> draw_ok false d = true) ->
+  exists pv' null', nbs n xs' ys' thr tl false draws' = Some (pv', adj, null') /\ length pv' = length pv.
+Proof. exact reorder_within_group_total. Qed.
+
+Theorem C19_reorder_pairs_total : forall n thr xs ys xs' ys' tl draws pv adj null draws',
+  Permutation (combine xs ys) (combine xs' ys') -> length xs' = length ys' ->
+  nbs n xs ys thr tl true draws = Some (pv, adj, null) ->
+  draws' <> [] -> (forall d, In d draws' -> draw_ok true d = true) ->
+  exists pv' null', nbs n xs' ys' thr tl true draws' = Some (pv', adj, null') /\ length pv' = length pv.
+Proof. exact reorder_pairs_total. Qed.
+
 (* non-vacuity: 4 nodes, 3+3 subjects, strong effects on the connections 0-1 and 2-3, none
    elsewhere; three recorded permutations.  Two components labelled 1 and 2, one connection each;
    null = [1;0;0] so both p-values are 1/3.  With tail='left' nothing is suprathreshold (None);
@@ -138,6 +270,36 @@ Example C19_nonvacuous :
   /\ run_nbs 4 ex_ys ex_xs 2 1 false [[0;1;2;3;4;5]] []
      = Some ([1; 1]%Q, [[0;1;0;0];[1;0;0;0];[0;0;0;2];[0;0;2;0]]%Z, [1]%Q).
 Proof. vm_compute. repeat split. Qed.
+
+(* non-vacuity of the statements on the whole call: the same data through [run_nbs_full]
+   (returns; tail 'left' -> Unsuitable = 4; another tail string -> 1; x of shape 4 x 5 -> 2;
+   paired with 3 and 2 subjects -> 3; k = 0 -> 7), a paired run with one exchanged pair, and the
+   relabelled stacks of the draw [3;1;2;0;4;5]: subject 3 (first of y) and subject 0 change groups *)
+Example C19_call_nonvacuous :
+  run_nbs_full 0 4 4 4 4 ex_xs ex_ys 2 false [[0;1;2;3;4;5];[3;1;2;0;4;5];[0;4;2;3;1;5]] []
+  = inr ([1 # 3; 1 # 3]%Q, [[0;1;0;0];[1;0;0;0];[0;0;0;2];[0;0;2;0]]%Z, [1; 0; 0]%Q)
+  /\ run_nbs_full 1 4 4 4 4 ex_xs ex_ys 2 false [[0;1;2;3;4;5]] [] = inl 4
+  /\ run_nbs_full 3 4 4 4 4 ex_xs ex_ys 2 false [[0;1;2;3;4;5]] [] = inl 1
+  /\ run_nbs_full 0 4 5 4 4 ex_xs ex_ys 2 false [[0;1;2;3;4;5]] [] = inl 2
+  /\ run_nbs_full 0 4 4 4 4 ex_xs (firstn 2 ex_ys) 2 true [] [[1 # 4; 3 # 4; 1 # 4]%Q] = inl 3
+  /\ run_nbs_full 0 4 4 4 4 ex_xs ex_ys 2 false [] [] = inl 7
+  /\ run_nbs_full 0 4 4 4 4 ex_xs ex_ys 2 true [] [[1 # 4; 3 # 4; 1 # 4]%Q; [1 # 4; 1 # 4; 1 # 4]%Q]
+     = inr ([1 # 2; 1 # 2]%Q, [[0;1;0;0];[1;0;0;0];[0;0;0;2];[0;0;2;0]]%Z, [0; 1]%Q).
+Proof. vm_compute. repeat split. Qed.
+
+Example C19_relabel_nonvacuous :
+  let R := relabel_unpaired 3 3 [3;1;2;0;4;5] (map (of_rows 0%Q) ex_xs) (map (of_rows 0%Q) ex_ys) in
+  map (fun X : mat Q => X 0 1) (fst R) = [1; 11; 12]%Q /\ map (fun X : mat Q => X 0 1) (snd R) = [10; 2; 3]%Q
+  /\ Permutation [3;1;2;0;4;5] (seq 0 (3 + 3)).
+Proof.
+  cbv zeta. split; [vm_compute; reflexivity|]. split; [vm_compute; reflexivity|].
+  cbn [seq Nat.add]. apply (Permutation_trans (l' := [0;1;2;3;4;5])); [|apply Permutation_refl].
+  apply (Permutation_trans (l' := [1;3;2;0;4;5])); [apply perm_swap|].
+  apply (Permutation_trans (l' := [1;2;3;0;4;5])); [apply perm_skip, perm_swap|].
+  apply (Permutation_trans (l' := [1;2;0;3;4;5])); [apply perm_skip, perm_skip, perm_swap|].
+  apply (Permutation_trans (l' := [1;0;2;3;4;5])); [apply perm_skip, perm_swap|].
+  apply perm_swap.
+Qed.
 
 Set Printing Width 400.
 Print Assumptions C19_adj_support_iff_supra_and_component.
@@ -154,3 +316,15 @@ Print Assumptions C19_reorder_pairs_invariant.
 Print Assumptions C19_ratio_gt_sound.
 Print Assumptions C19_t_gt_thresh_unpaired.
 Print Assumptions C19_t_gt_thresh_paired.
+Print Assumptions C19_pval_is_fraction_of_null_ge_links.
+Print Assumptions C19_null_is_relabelled_max.
+Print Assumptions C19_relabel_unpaired_is_permutation.
+Print Assumptions C19_relabel_paired_exchanges_pairs.
+Print Assumptions C19_raises_iff.
+Print Assumptions C19_returns_iff.
+Print Assumptions C19_call_returns_iff.
+Print Assumptions C19_exception_raised.
+Print Assumptions C19_degenerate_unreachable.
+Print Assumptions C19_swap_groups_tail_total.
+Print Assumptions C19_reorder_within_group_total.
+Print Assumptions C19_reorder_pairs_total.
